@@ -1,5 +1,6 @@
 import GuppyVerif.Lemmas.C06Sound
 import GuppyVerif.Lemmas.C06Fail
+import GuppyVerif.Lemmas.C06TermFlow
 /-! C06 helper lemmas, part 5: completeness.  If every path is good (`Good P`) then no step of
     `checkCfg` can raise a user error: a pass-1 error would be a bookkeeping failure and hence a
     bad path (C06Fail); a pass-2 error would be a leaf that is absent but read later, or owned but
@@ -426,22 +427,23 @@ theorem liveDefault_nil {P : Prog} (hgap : NoGap P) : liveDefault P = [] := by
 
 /-- no user error anywhere in `checkCfg` on a good program outside the known gaps -/
 theorem checkCfg_no_user_err {P : Prog} (hw : P.WF) (hr : ∀ b ∈ P.blocks, b ≠ P.exit → Reachable P b)
-    (hgap : NoGap P) (hg : Good P) {e : Err} (h : checkCfg P = .error e) : e = .crash ∨ e = .fuel := by
+    (hgap : NoGap P) (hg : Good P) {e : Err} (h : checkCfg P = .error e) : e = .crash := by
   unfold checkCfg at h
   cases h1 : scopes P with
   | error e1 =>
     simp only [h1, bind, Except.bind] at h
     cases h
-    exact Or.inl (scopes_no_user_err hw hg hr h1)
+    exact scopes_no_user_err hw hg hr h1
   | ok tbl =>
     simp only [h1, bind, Except.bind] at h
     obtain ⟨s1, s2, _⟩ := scopes_ok h1
-    cases h2 : Dataflow.liveRun (flowCfg P (lookup tbl)) headSched (liveFuel P tbl)
+    cases h2 : Dataflow.liveRun (flowCfg P (lookup tbl)) headSched
+        (liveFuel (flowCfg P (lookup tbl)) (liveDefault P))
         (Dataflow.liveInit (flowCfg P (lookup tbl)) (liveDefault P)) with
     | none =>
-      simp only [h2] at h
-      cases h
-      exact Or.inr rfl
+      have := liveRun_flow_isSome P (lookup tbl) (liveDefault P) headSched
+      rw [h2] at this
+      cases this
     | some t =>
       simp only [h2] at h
       obtain ⟨q, hq, h⟩ := forM_err _ _ h
@@ -450,6 +452,6 @@ theorem checkCfg_no_user_err {P : Prog} (hw : P.WF) (hr : ∀ b ∈ P.blocks, b 
       have h' : checkEdges P C.live q.1 (C.sc q.1) = .error e := by
         show checkEdges P t.vals q.1 (lookup tbl q.1) = .error e
         rw [← (s2 q hq).2]; exact h
-      exact Or.inl (checkEdges_no_user_err hw hg C (liveDefault_nil hgap) hgap hr (s2 q hq).1 h')
+      exact checkEdges_no_user_err hw hg C (liveDefault_nil hgap) hgap hr (s2 q hq).1 h'
 
 end GuppyVerif.Linearity
